@@ -60,7 +60,8 @@ _T = {
     "Closed": ["derg2_is_deriv_g2", "derg3_is_deriv_g3", "g2_endpoints", "g3_endpoints", "derg2_pos", "derg3_pos",
                "dergstrip_is_deriv_gstrip"],
     "Strip": ["gstrip_cn_pos", "gstrip_endpoints", "gstrip_strictMonoOn", "dergstrip_end_is_limit",
-              "dergstrip_end_is_limit_left", "gstrip_shape"],
+              "dergstrip_end_is_limit_left", "gstrip_shape", "dergstripMask_iff", "dergstrip_eq_interior",
+              "dergstrip_is_deriv_outside_window", "dergstrip_eq_end"],
     "Shape": ["trapezoidal_shape", "simpson_shape", "midpoint_shape", "rectanglesine_shape", "uniforminteger_shape",
               "chebyshevlobatto_shape", "clenshawcurtis_shape", "fejerfirst_shape", "fejersecond_shape",
               "chebyshevlobatto_weights_formula", "rectanglesine_weights_formula",
@@ -1025,18 +1026,27 @@ cls, base, n, par = {cls!r}, {base!r}, {n}, {par!r}
 b = getattr(og, base)(n)
 g = getattr(og, cls)(n, par) if base in ('ClenshawCurtis', 'GaussChebyshevType2') and 'General' not in cls else getattr(og, cls)(n, getattr(og, base), par)
 def gmap(x):
-    x = mp.mpf(float(x))
+    x = mp.mpf(x)
     if 'Strip' not in cls:
         return {{1: x, 5: (120*x + 20*x**3 + 9*x**5) / 149, 9: (40320*x + 6720*x**3 + 3024*x**5 + 1800*x**7 + 1225*x**9) / 53089}}[par]
     tau = mp.pi / mp.log(par); td = mp.mpf(1)/2 + 1/(mp.exp(tau*mp.pi) + 1); u = mp.asin(x)
     cn = 1/(mp.log(1 + mp.exp(-tau*mp.pi)) - mp.log(2) + mp.pi*tau*td/2)
     return cn*(mp.log(1 + mp.exp(-tau*(mp.pi/2 + u))) - mp.log(1 + mp.exp(-tau*(mp.pi/2 - u))) + td*tau*u)
 for i in range(n):
-    x = float(b.points[i])
-    if abs(abs(x) - 1) < 1e-6: continue
-    want = float(mp.diff(gmap, x)) * float(b.weights[i])
+    x = float(b.points[i]); gap = 1 - abs(x); tolw = 1e-9
+    if gap < 1e-6 and 'Strip' not in cls: continue
+    if gap < 1e-6:
+        # near an end point: derivative at the node (one-sided); cancellation in 1 - s^2; the code's documented 1e-8 window
+        dg = mp.diff(gmap, mp.mpf(x) * (1 - mp.mpf(10)**-24), h=mp.mpf(10)**-30)
+        tolw = 1e-9 + (8 * 2.3e-16 / (gap * (2 - gap)) if gap > 0 else 0.0)
+        if gap <= 1.0000001e-8:
+            dend = mp.diff(gmap, mp.mpf(1) * (1 - mp.mpf(10)**-24), h=mp.mpf(10)**-30)
+            tolw = 1e-9 + 2 * float(abs(dend - dg) / abs(dg))
+    else:
+        dg = mp.diff(gmap, x)
+    want = float(dg) * float(b.weights[i])
     assert abs(float(g.points[i]) - float(gmap(x))) <= 1e-11, 'node'
-    assert abs(float(g.weights[i]) - want) <= 1e-9 * max(abs(want), 1e-3), f'{{cls}}: weight {{i}} = {{float(g.weights[i])!r}}, base weight x derivative of the map = {{want!r}}'
+    assert abs(float(g.weights[i]) - want) <= tolw * max(abs(want), 1e-3), f'{{cls}}: weight {{i}} = {{float(g.weights[i])!r}}, base weight x derivative of the map = {{want!r}}'
 """
 
 
@@ -1068,6 +1078,13 @@ def _oracle_trefethen(ctx, og, rng, nmax, reps):
         jobs += [("TrefethenCC", "ClenshawCurtis", n, d), ("TrefethenGC2", "GaussChebyshevType2", n, d), ("TrefethenGeneral", gb, n, d),
                  ("TrefethenStripCC", "ClenshawCurtis", n, rho), ("TrefethenStripGC2", "GaussChebyshevType2", n, rho),
                  ("TrefethenStripGeneral", gb, n, rho)]
+    # nodes close to, but not at, the end points (the window in which `_dergstrip` may use the one-sided limit is 1e-8,
+    # theorem dergstripMask_iff): large Chebyshev-type rules (1 - |x_1| ~ 5/n^2) and an end-point-clustering base rule
+    for _ in range(max(1, reps // 8)):
+        rho = round(rng.uniform(1.05, 3.5), 3)
+        jobs += [("TrefethenStripCC", "ClenshawCurtis", rng.randrange(705, 2400), rho),
+                 ("TrefethenStripGC2", "GaussChebyshevType2", rng.randrange(705, 2400), round(rng.uniform(1.05, 3.5), 3)),
+                 ("TrefethenStripGeneral", "TanhSinh", 2 * rng.randrange(12, 41) + 1, round(rng.uniform(1.05, 3.5), 3))]
     for cls, base, n, par in jobs:
         with warnings.catch_warnings():
             warnings.simplefilter("ignore")
@@ -1084,12 +1101,22 @@ def _oracle_trefethen(ctx, og, rng, nmax, reps):
         for s in (-1, 1):
             if abs(float(gm(mp.mpf(s))) - s) > 1e-14:
                 ctx.fail("oracle", f"onedgrid.{cls}", f"{label}: map sends {s} to {float(gm(mp.mpf(s)))!r}")
-        for i in range(n):
+        idx = range(n) if n <= 200 else sorted(set(list(range(40)) + list(range(n - 40, n)) + [rng.randrange(n) for _ in range(40)]))
+        for i in idx:
             x = float(b.points[i])
-            if abs(abs(x) - 1) < 1e-6:
-                # end point: one-sided limit of the derivative (strip map), plain derivative (polynomials)
+            gap = 1 - abs(x)
+            if gap < 1e-6 and "Strip" in cls:
+                # near an end point: the derivative at the node itself (one-sided at the end point); the double-precision
+                # formula loses 1 - s^2 to cancellation (relative 2^-52 / (1 - s^2)), and within 1e-8 of the end the code
+                # uses the one-sided limit instead (dergstripMask_iff / dergstrip_eq_end): allowed by that much
                 xe = mp.mpf(x) * (1 - mp.mpf(10) ** -24)
-                dg = mp.diff(gm, xe, h=mp.mpf(10) ** -30) if "Strip" in cls else mp.diff(gm, mp.mpf(x))
+                dg = mp.diff(gm, xe, h=mp.mpf(10) ** -30)
+                tolw = 1e-9 + (8 * 2.3e-16 / (gap * (2 - gap)) if gap > 0 else 0.0)
+                if gap <= 1.0000001e-8:
+                    dend = mp.diff(gm, mp.mpf(1) * (1 - mp.mpf(10) ** -24), h=mp.mpf(10) ** -30)
+                    tolw = 1e-9 + 2 * float(abs(dend - dg) / abs(dg))
+            elif gap < 1e-6:
+                dg = mp.diff(gm, mp.mpf(x))
                 tolw = 1e-7
             else:
                 dg = mp.diff(gm, mp.mpf(x))
